@@ -42,8 +42,8 @@ ASSUMPTIONS = ["RNG: the draws of std::normal_distribution<double>(0,1) over std
                "WhiteNoiseAcceleration is used without an exogenous model and not skipping (the skip branches of LinearStateModel::propagate are C13's)",
                "InitSurveillanceAreaGrid::initialize is applied to a particle set with 4 state rows"]
 
-COUNTS = {"quick": {"wna": 90, "lti_state": 60, "lti_meas": 50, "linmodel": 70, "sim": 40, "sensor": 40, "grid": 50},
-          "thorough": {"wna": 2500, "lti_state": 1500, "lti_meas": 1200, "linmodel": 2000, "sim": 900, "sensor": 900, "grid": 1000}}
+COUNTS = {"quick": {"wna": 90, "lti_state": 60, "lti_meas": 50, "linmodel": 70, "sim": 40, "sensor": 40, "grid": 50, "wna_stat": 8, "lin_stat": 6},
+          "thorough": {"wna": 2500, "lti_state": 1500, "lti_meas": 1200, "linmodel": 2000, "sim": 900, "sensor": 900, "grid": 1000, "wna_stat": 100, "lin_stat": 60}}
 DIMNAME = {1: "OneD", 2: "TwoD", 3: "ThreeD"}
 
 
@@ -72,7 +72,7 @@ def log_gauss(x, mean, S):
 
 def _wna_params(rng):
     dim = rng.choice([1, 2, 3])
-    T = float("%.6g" % (10 ** rng.uniform(-1.5, 1.0)))
+    T = float("%.6g" % (10 ** rng.uniform(-3.0, 1.0)))        # cond(Q) ~ 12/T^2 up to ~1e7
     q = float("%.6g" % (10 ** rng.uniform(-2.0, 2.0)))
     return dim, T, q, rng.getrandbits(31)
 
@@ -82,17 +82,19 @@ def gen_wna(rng, k):
     d = 2 * dim
     F, Q = F_closed(dim, T), Q_closed(dim, T, q)
     c = caseio.Case(k, "wna", {"dim": dim, "T": T, "q": q, "cond": "%.3g" % np.linalg.cond(Q)})
-    c.int("dim", dim).mat("Tq", [[T, q]]).int("seed", seed)
+    defseed = int(rng.random() < 0.12)         # the constructor without a seed argument (documented default: 1)
+    c.int("dim", dim).mat("Tq", [[T, q]]).int("seed", 1 if defseed else seed).int("defseed", defseed)
+    c.meta["defseed"] = defseed
     script, mats = [], []
     for i in range(rng.randint(3, 7)):
         op = rng.choice("nnmtt")
         if op == "n":
-            script.append("n%d" % rng.randint(1, 5))
+            script.append("n%d" % rng.choice([0, 1, 1, 2, 3, 4, 5]))
         elif op == "m":
-            cols = rng.randint(1, 4)
+            cols = rng.choice([0, 1, 1, 2, 3, 4])
             script.append("m%d" % i); mats.append(("X%d" % i, gen.matrix(rng, d, cols, 3.0)))
         else:
-            cols = rng.randint(1, 6)
+            cols = rng.choice([0, 1, 2, 3, 4, 5, 6])
             prev = gen.matrix(rng, d, cols, 2.0)
             Lc = np.linalg.cholesky(Q)
             spread = rng.choice([0.0, 0.5, 1.0, 2.0, 6.0])
@@ -202,9 +204,10 @@ def gen_linmodel(rng, k):
     n = rng.randint(0, 6) if rng.random() < 0.15 else rng.randint(1, 6)
     idxs = _indices(rng, n, False)
     R, rr, rc = _noise_cov(rng, len(idxs), False)
-    c = caseio.Case(k, "linmodel", {"n": n, "m": len(idxs), "rr": rr, "rc": rc})
-    c.int("n", n).word("idxs", idxs).mat_shape("R", rr, rc, R).int("seed", rng.getrandbits(31))
-    c.word("nums", [rng.randint(1, 5) for _ in range(rng.randint(1, 3))])
+    defseed = int(rng.random() < 0.12)
+    c = caseio.Case(k, "linmodel", {"n": n, "m": len(idxs), "rr": rr, "rc": rc, "defseed": defseed})
+    c.int("n", n).word("idxs", idxs).mat_shape("R", rr, rc, R).int("seed", 1 if defseed else rng.getrandbits(31)).int("defseed", defseed)
+    c.word("nums", [rng.choice([0, 1, 2, 3, 4, 5]) for _ in range(rng.randint(1, 3))])
     return c
 
 
@@ -227,11 +230,14 @@ def gen_sim(rng, k, sensor=False):
     d = 2 * dim
     len_ = rng.choice([1, 2, 3, 50]) if rng.random() < 0.3 else rng.randint(1, 50)
     c = caseio.Case(k, "sensor" if sensor else "sim", {"dim": dim, "T": T, "q": q, "len": len_})
-    c.int("dim", dim).mat("Tq", [[T, q]]).int("seed", seed).mat_shape("x0", d, 1, gen.matrix(rng, d, 1, 5.0)).int("len", len_)
+    defseed = int(rng.random() < 0.1)
+    c.int("dim", dim).mat("Tq", [[T, q]]).int("seed", 1 if defseed else seed).int("defseed", defseed)
+    c.mat_shape("x0", d, 1, gen.matrix(rng, d, 1, 5.0)).int("len", len_)
     if sensor:
         idxs = _indices(rng, d, True)
         R, rr, rc = _noise_cov(rng, len(idxs), True)
-        c.word("idxs", idxs).mat_shape("R", rr, rc, R).int("seed2", rng.getrandbits(31))
+        defseed2 = int(rng.random() < 0.15)
+        c.word("idxs", idxs).mat_shape("R", rr, rc, R).int("seed2", 1 if defseed2 else rng.getrandbits(31)).int("defseed2", defseed2)
         c.meta.update({"m": len(idxs), "rr": rr, "rc": rc})
     ops = _ops(rng, len_, "f" if sensor else "b")
     c.word("ops", ops)
@@ -239,8 +245,32 @@ def gen_sim(rng, k, sensor=False):
     return c
 
 
+def gen_wna_stat(rng, k, tier="quick"):
+    """empirical moments of many samples: the mirror-free form of 'covariance Q'"""
+    dim = rng.choice([1, 2, 3])
+    T = float("%.6g" % (10 ** rng.uniform(-1.0, 1.0))); q = float("%.6g" % (10 ** rng.uniform(-2.0, 2.0)))
+    N = 10000 if tier == "quick" else 20000
+    c = caseio.Case(k, "wna_stat", {"dim": dim, "T": T, "q": q, "N": N})
+    c.int("dim", dim).mat("Tq", [[T, q]]).int("seed", rng.getrandbits(31)).int("N", N).mat_shape("x", 2 * dim, 1, gen.matrix(rng, 2 * dim, 1, 3.0))
+    return c
+
+
+def gen_lin_stat(rng, k, tier="quick"):
+    n = rng.choice([2, 4, 6])            # also run as a sensor over a WhiteNoiseAcceleration of that size
+    idxs = _indices(rng, n, True)
+    R, rr, rc = _noise_cov(rng, len(idxs), True)
+    N = 10000 if tier == "quick" else 20000
+    c = caseio.Case(k, "lin_stat", {"n": n, "m": len(idxs), "rr": rr, "rc": rc, "N": N})
+    c.int("n", n).word("idxs", idxs).mat_shape("R", rr, rc, R).int("seed", rng.getrandbits(31)).int("N", N)
+    return c
+
+
 def gen_grid(rng, k):
     nx, ny = rng.randint(2, 6), rng.randint(2, 6)
+    if rng.random() < 0.08:
+        # outside the property's domain (>= 2 per axis): 0/0 * 0 = NaN coordinates; correspondence only
+        if rng.random() < 0.5: nx = 1
+        else: ny = 1
     np_ = nx * ny if rng.random() < 0.7 else max(1, rng.choice([nx * ny - 1, nx * ny + 1, nx + ny, nx, (nx - 1) * (ny - 1), nx * ny + ny]))
     area = sorted([rng.uniform(-20, 20), rng.uniform(-20, 20)]) + sorted([rng.uniform(-20, 20), rng.uniform(-20, 20)])
     if rng.random() < 0.15:
@@ -277,7 +307,8 @@ def zero_length_case(rng, cid, sensor):
 
 def generate(rng, tier):
     makers = {"wna": gen_wna, "lti_state": gen_lti_state, "lti_meas": gen_lti_meas, "linmodel": gen_linmodel,
-              "sim": gen_sim, "sensor": lambda r, i: gen_sim(r, i, True), "grid": gen_grid}
+              "sim": gen_sim, "sensor": lambda r, i: gen_sim(r, i, True), "grid": gen_grid,
+              "wna_stat": lambda r, i: gen_wna_stat(r, i, tier), "lin_stat": lambda r, i: gen_lin_stat(r, i, tier)}
     kinds = [kind for kind, n in COUNTS[tier].items() for _ in range(n)]
     rng.shuffle(kinds)           # interleaved, so that any prefix of the list covers every kind
     cases = [makers[kind](rng, k) for k, kind in enumerate(kinds)]
@@ -344,6 +375,8 @@ def nontrivial(c):
         return (c.kind, m["dim"], m["len"], "r" in ops, len(ops) > int(m["len"]), m.get("m"))
     if c.kind == "grid":
         return ("grid", m["nx"], m["ny"], m["np"], c.get("ctor4"))
+    if c.kind in ("wna_stat", "lin_stat"):
+        return (c.kind, m.get("dim"), m.get("m"), c.id)
     return None
 
 
@@ -361,13 +394,33 @@ def _log_close(a, b, cond):
             continue            # underflow region: Eigen's vectorised exp clamps its argument (5.56e-309), libm goes subnormal / 0
         if x > 0 and y > 0:
             lx, ly = math.log(x), math.log(y)
-            if abs(lx - ly) <= 1e-10 * cond * (1.0 + abs(lx)):
+            if abs(lx - ly) <= 1e-12 + 1e-13 * cond * (1.0 + abs(lx)):      # ~ 500 eps * cond
                 continue
         return "entry %d: %r vs %r" % (i, x, y)
     return None
 
 
+STATS = {"probe_ill_conditioned_skipped": 0, "probes": 0}
+PROBE_COND_MAX = 1e6
+
+
+def probe_ok(c, impl, count=False):
+    """The factor is observed as probeS * probeZ^-1; a badly conditioned probeZ is rejected and counted."""
+    Z = impl.get("probeZ")
+    if Z is None or Z.shape[0] != Z.shape[1] or Z.size == 0:
+        return True
+    ok = np.linalg.cond(Z) <= PROBE_COND_MAX
+    if count:
+        STATS["probes"] += 1
+        STATS["probe_ill_conditioned_skipped"] += 0 if ok else 1
+    return bool(ok)
+
+
 def compare(c, impl, model):
+    if c.kind in ("wna_stat", "lin_stat"):
+        return []                       # no model output: these cases serve the property oracle only
+    if c.kind in ("wna", "sim", "sensor") and not probe_ok(c, impl, count=True):
+        return caseio.compare_fields(impl, model, [n for n in ("F", "Q", "state_size", "ctor") if model.has(n)], atol=0.0, rtol=1e-12)
     skip_prefix = ("spec_", "LLt", "draws_left", "traj_len", "err_pos", "no_factor")
     names = [n for n in model.names() if not n.startswith(skip_prefix) and n != "L" and not (n.startswith("x") and n[1:].isdigit())]
     diffs = []
@@ -414,30 +467,34 @@ def _observed_L(impl, d):
     return S @ np.linalg.inv(Z)
 
 
-def _wna_common(c, impl, v, tag):
-    """closed forms, factor contract, reproducibility; returns (F, Q, L) at spec level"""
+SIGMAS = 5.5
+
+
+def _wna_common(c, impl, v):
+    """closed forms at spec level, observed factor, reproducibility from the seed (mirror-free)"""
     dim = c.get("dim"); T, q = c.get("Tq")[0]
     d, dn = 2 * dim, DIMNAME[dim]
     F, Q = F_closed(dim, T), Q_closed(dim, T, q)
-    L = _observed_L(impl, d)
-    if L is None:
-        S = impl.get("probeS")
+    S = impl.get("probeS")
+    if S is None or S.shape != (d, d):
         v.append(("C16:noise-sample-rows:Dim=%s" % dn, "getNoiseSample(%d) returned shape %s, state dimension %d" % (d, None if S is None else S.shape, d)))
         return F, Q, None
-    if not _close(L @ L.T, Q, 1e-8):
-        v.append(("C16:noise-cov-not-Q:Dim=%s" % dn, "observed factor L: max|L L^T - Q| = %.3g (max|Q| %.3g)" % (caseio.maxdiff(L @ L.T, Q), np.max(np.abs(Q)))))
     if impl.get("reproducible") != 1:
         v.append(("C16:noise-not-reproducible:Dim=%s" % dn, "two instances with the same seed drew different samples"))
     if impl.get("seed_sensitive") != 1:
         v.append(("C16:noise-ignores-seed:Dim=%s" % dn, "instances with different seeds drew the same sample"))
+    L = _observed_L(impl, d) if probe_ok(c, impl) else None
     return F, Q, L
 
 
 def oracle_wna(c, impl, model):
+    """Property clauses only.  'sample = L * (mirrored draws)' is a correspondence matter (compare): a change of the
+    draw order is not a violation of the property.  The factor observed through the mirror is judged (L L^T = Q)
+    only when the mirror is validated by this very case (every sample equals L Z)."""
     v = []
     dim = c.get("dim"); T, q = c.get("Tq")[0]
     d, dn = 2 * dim, DIMNAME[dim]
-    F, Q, L = _wna_common(c, impl, v, "wna")
+    F, Q, L = _wna_common(c, impl, v)
     if not _close(impl.get("F"), F, 1e-15):
         v.append(("C16:F-not-closed-form:Dim=%s" % dn, "F differs from blockdiag([1 T; 0 1]) by %.3g" % caseio.maxdiff(impl.get("F"), F)))
     if not _close(impl.get("Q"), Q, 1e-12, 0) or not caseio.close(impl.get("Q"), Q, 0.0, 1e-12):
@@ -447,17 +504,17 @@ def oracle_wna(c, impl, model):
     z = list(impl.get("draws").reshape(-1)) if impl.has("draws") else []
     pos = 0
     cond = float(c.meta["cond"])
+    mirror_ok, mirror_used = L is not None, False
     for k, op in enumerate(c.get("script")):
         r = impl.get("r%d" % k)
         arg = int(op[1:])
         if op[0] == "n":
             if r is None or r.shape != (d, arg):
                 v.append(("C16:noise-sample-rows:Dim=%s" % dn, "getNoiseSample(%d) returned shape %s" % (arg, None if r is None else r.shape)))
-                pos += d * arg; continue
-            if L is not None:
-                Z = colmajor(z[pos:], d, arg)
-                if not _close(r, L @ Z, 1e-8):
-                    v.append(("C16:noise-sample-not-LZ:Dim=%s" % dn, "call %d: sample differs from L*Z (Z the seeded draws, column-major) by %.3g" % (k, caseio.maxdiff(r, L @ Z))))
+                mirror_ok = False
+            elif L is not None and arg > 0:
+                mirror_used = True
+                mirror_ok = mirror_ok and _close(r, L @ colmajor(z[pos:], d, arg), 1e-8)
             pos += d * arg
         elif op[0] == "m":
             X = c.get("X%d" % arg); cols = X.shape[1]
@@ -465,10 +522,10 @@ def oracle_wna(c, impl, model):
                 v.append(("C16:motion-modifies-input", "call %d" % k))
             if r is None or r.shape != X.shape:
                 v.append(("C16:motion-shape:Dim=%s" % dn, "call %d returned shape %s" % (k, None if r is None else r.shape)))
-            elif L is not None:
-                Z = colmajor(z[pos:], d, cols)
-                if not _close(r, F @ X + L @ Z, 1e-8):
-                    v.append(("C16:motion-not-Fx-plus-noise:Dim=%s" % dn, "call %d: differs from F x + L z by %.3g" % (k, caseio.maxdiff(r, F @ X + L @ Z))))
+                mirror_ok = False
+            elif L is not None and cols > 0:
+                mirror_used = True
+                mirror_ok = mirror_ok and _close(r, F @ X + L @ colmajor(z[pos:], d, cols), 1e-8)
             pos += d * cols
         else:
             P, C = c.get("P%d" % arg), c.get("C%d" % arg)
@@ -478,7 +535,7 @@ def oracle_wna(c, impl, model):
             want = [log_gauss(C[:, j], F @ P[:, j], Q) for j in range(P.shape[1])]
             for j, lw in enumerate(want):
                 got = float(r[j, 0])
-                okv = (got > 0 and abs(math.log(got) - lw) <= 1e-8 * cond * (1.0 + abs(lw))) or (got == 0.0 and lw < -700) or (0 <= got < 1e-290 and lw < -660)
+                okv = (got > 0 and abs(math.log(got) - lw) <= 1e-9 + 1e-11 * cond * (1.0 + abs(lw))) or (got == 0.0 and lw < -700) or (0 <= got < 1e-290 and lw < -660)
                 if not okv:
                     v.append(("C16:transition-density-not-N(cur;F.prev,Q):Dim=%s" % dn,
                               "call %d pair %d: returned %r, N(cur; F prev, Q) = exp(%.17g)" % (k, j, got, lw)))
@@ -487,6 +544,60 @@ def oracle_wna(c, impl, model):
                 e = _log_close(r, model.get("spec_r%d" % k), cond * 100)
                 if e:
                     v.append(("C16:transition-density-not-N(cur;F.prev,Q):Dim=%s" % dn, "call %d vs the extracted density: %s" % (k, e)))
+    if L is not None and mirror_ok and mirror_used and not _close(L @ L.T, Q, 1e-8):
+        v.append(("C16:noise-cov-not-Q:Dim=%s" % dn, "every sample is L*Z for the observed factor L, but max|L L^T - Q| = %.3g (max|Q| %.3g)" % (caseio.maxdiff(L @ L.T, Q), np.max(np.abs(Q)))))
+    return v
+
+
+def _moment_check(v, sig, what, got, want, var_diag, N, second=True):
+    """entry-wise test of an empirical moment against its expectation, SIGMAS standard deviations"""
+    got = np.asarray(got, float)
+    if got.shape != want.shape:
+        v.append((sig, "%s has shape %s, expected %s" % (what, got.shape, want.shape))); return
+    if second:
+        sd = np.sqrt((np.outer(var_diag, var_diag) + want ** 2) / N)
+    else:
+        sd = np.sqrt(var_diag / N).reshape(want.shape)
+    bad = np.abs(got - want) > SIGMAS * sd + 1e-12 * np.max(np.abs(want) + 1e-300)
+    if np.any(bad):
+        i = np.argwhere(bad)[0]
+        v.append((sig, "%s entry %s: %.6g, expected %.6g +- %.3g (%d samples, %.1f sigma allowed)" % (what, tuple(i), got[tuple(i)], want[tuple(i)], sd[tuple(i)], N, SIGMAS)))
+
+
+def oracle_wna_stat(c, impl, model):
+    v = []
+    dim = c.get("dim"); T, q = c.get("Tq")[0]
+    d, dn, N = 2 * dim, DIMNAME[dim], c.get("N")
+    F, Q = F_closed(dim, T), Q_closed(dim, T, q)
+    if impl.get("noise_rows") != d or impl.get("noise_cols") != N:
+        v.append(("C16:noise-sample-rows:Dim=%s" % dn, "getNoiseSample(%d) returned %s x %s" % (N, impl.get("noise_rows"), impl.get("noise_cols"))))
+        return v
+    dq = np.diag(Q)
+    _moment_check(v, "C16:noise-empirical-cov-not-Q:Dim=%s" % dn, "second moment of the noise samples", impl.get("noise_second_moment"), Q, dq, N)
+    _moment_check(v, "C16:noise-empirical-mean-not-0:Dim=%s" % dn, "mean of the noise samples", impl.get("noise_mean"), np.zeros((d, 1)), dq, N, second=False)
+    x = c.get("x")
+    _moment_check(v, "C16:motion-empirical-mean-not-Fx:Dim=%s" % dn, "mean of motion(x)", impl.get("motion_mean"), F @ x, dq, N, second=False)
+    _moment_check(v, "C16:motion-empirical-cov-not-Q:Dim=%s" % dn, "covariance of motion(x)", impl.get("motion_cov"), Q, dq, N)
+    return v
+
+
+def oracle_lin_stat(c, impl, model):
+    v = []
+    R, N, m = c.get("R"), c.get("N"), len(c.get("idxs"))
+    if impl.get("noise_rows") != m or impl.get("noise_cols") != N:
+        v.append(("C16:sensor-noise-sample-rows:m=%d" % m, "getNoiseSample(%d) returned %s x %s" % (N, impl.get("noise_rows"), impl.get("noise_cols"))))
+        return v
+    L = impl.get("sqrtR")
+    if L is None or L.shape != (m, m) or not _close(L @ L.T, R, 1e-9):
+        v.append(("C16:sensor-noise-cov-not-R", "sqrt_R sqrt_R^T differs from R"))
+    _moment_check(v, "C16:sensor-noise-empirical-cov-not-R", "second moment of the sensor noise", impl.get("noise_second_moment"), R, np.diag(R), N)
+    _moment_check(v, "C16:sensor-noise-empirical-mean-not-0", "mean of the sensor noise", impl.get("noise_mean"), np.zeros((m, 1)), np.diag(R), N, second=False)
+    if impl.has("resid_second_moment"):
+        Ns = impl.get("resid_count")
+        if impl.get("freeze_failures") != 0 or impl.get("freeze_past_end") != 0:
+            v.append(("C16:sensor-freeze-forwarding", "%s of %d freezes inside the trajectory failed; the freeze past its end returned %s" % (impl.get("freeze_failures"), Ns, impl.get("freeze_past_end"))))
+        _moment_check(v, "C16:sensor-measurement-not-Hx-plus-noise:cov", "second moment of measure() - H x_k", impl.get("resid_second_moment"), R, np.diag(R), Ns)
+        _moment_check(v, "C16:sensor-measurement-not-Hx-plus-noise:mean", "mean of measure() - H x_k", impl.get("resid_mean"), np.zeros((m, 1)), np.diag(R), Ns, second=False)
     return v
 
 
@@ -543,27 +654,16 @@ def oracle_linmodel(c, impl, model):
     if L is None or L.shape != (m, m) or not _close(L @ L.T, R, 1e-9):
         v.append(("C16:sensor-noise-cov-not-R", "sqrt_R sqrt_R^T differs from R by %.3g" % (caseio.maxdiff(L @ L.T, R) if L is not None and L.shape == (m, m) else float("nan"))))
         return v
-    z = list(impl.get("draws").reshape(-1)) if impl.has("draws") else []
-    pos = 0
-    for k, s in enumerate(c.get("nums")):
-        num = int(s); r = impl.get("r%d" % k)
+    if impl.get("reproducible") != 1:
+        v.append(("C16:sensor-noise-not-reproducible", "two sensors with the same seed drew different samples"))
+    if impl.get("seed_sensitive") != 1:
+        v.append(("C16:sensor-noise-ignores-seed", "sensors with different seeds drew the same sample"))
+    for k, s_ in enumerate(c.get("nums")):
+        num = int(s_); r = impl.get("r%d" % k)
         if r is None or r.shape != (m, num):
             v.append(("C16:sensor-noise-sample-rows:m=%d" % m, "getNoiseSample(%d) returned shape %s for measurement size %d" % (num, None if r is None else r.shape, m)))
-        elif not _close(r, L @ colmajor(z[pos:], m, num), 1e-9):
-            v.append(("C16:sensor-noise-sample-not-LZ", "call %d differs from sqrt_R * Z by %.3g" % (k, caseio.maxdiff(r, L @ colmajor(z[pos:], m, num)))))
-        pos += m * num
+    # 'sample = sqrt_R * (mirrored draws)' is compared against the model (correspondence), not judged here
     return v
-
-
-def _trajectory(c, impl, L):
-    dim = c.get("dim"); T, q = c.get("Tq")[0]
-    d = 2 * dim
-    F = F_closed(dim, T)
-    z = list(impl.get("draws").reshape(-1)) if impl.has("draws") and impl.get("draws").size else []
-    xs = [c.get("x0").reshape(-1)]
-    for k in range(1, c.get("len")):
-        xs.append(F @ xs[-1] + L @ np.array(z[(k - 1) * d:k * d]))
-    return xs
 
 
 def oracle_sim(c, impl, model):
@@ -577,17 +677,19 @@ def oracle_sim(c, impl, model):
     if ctor != "ok":
         v.append(("C16:trajectory-ctor-rejects-valid-length", "simulation_time = %d: constructor outcome %s" % (c.get("len"), ctor)))
         return v
-    F, Q, L = _wna_common(c, impl, v, "sim")
-    if L is None:
-        return v
-    xs = _trajectory(c, impl, L)
-    n = len(xs)
+    _wna_common(c, impl, v)
+    n = c.get("len")
+    x0 = c.get("x0").reshape(-1)
+    seen = {}            # trajectory as served by the implementation itself: index -> state
+    # x_{k+1} = F x_k + L z_k against the mirrored draws is compared with the model (correspondence); here:
+    # x_0 is the given state, the states are served in order, identically after every reset, the end is reported
     if c.kind == "sim":
         if impl.get("data_init_empty") != 1:
             v.append(("C16:trajectory-data-before-first-call", "getData() holds a value before the first bufferData()"))
         cur, last = 0, None
         for k, op in enumerate(c.get("ops")):
             ret = impl.get("ret%d" % k)
+            got = impl.get("data%d" % k)
             if op == "b":
                 want = 1 if cur < n else 0
                 if ret != want:
@@ -595,7 +697,14 @@ def oracle_sim(c, impl, model):
                               "call %d (bufferData, %d served since reset, length %d) returned %s" % (k, cur, n, ret)))
                     return v
                 if want:
-                    last = xs[cur]; cur += 1
+                    if got is None or got.shape != (len(x0), 1):
+                        v.append(("C16:trajectory-not-served-in-order:Dim=%s" % dn, "after call %d getData() has shape %s" % (k, None if got is None else got.shape))); return v
+                    if cur == 0 and not np.array_equal(got.reshape(-1), x0):
+                        v.append(("C16:trajectory-not-served-in-order:Dim=%s" % dn, "the first state served after call %d is not the initial state" % k)); return v
+                    if cur in seen and not np.array_equal(got, seen[cur]):
+                        v.append(("C16:trajectory-not-served-in-order:Dim=%s" % dn, "call %d serves index %d with a state different from the one served for it before the reset" % (k, cur))); return v
+                    seen.setdefault(cur, got)
+                    last = got; cur += 1
             elif op == "r":
                 if ret != 1:
                     v.append(("C16:trajectory-reset-refused", "setProperty(reset) returned %s" % ret))
@@ -603,9 +712,8 @@ def oracle_sim(c, impl, model):
             elif ret != 0:
                 v.append(("C16:trajectory-unknown-property-accepted", "setProperty(other) returned %s" % ret))
             if last is not None:
-                got = impl.get("data%d" % k)
-                if got is None or not _close(got.reshape(-1), last, 1e-8):
-                    v.append(("C16:trajectory-not-served-in-order:Dim=%s" % dn, "after call %d (%s) getData() is not x_%d of x_{k+1} = F x_k + L z_k" % (k, op, max(cur - 1, 0))))
+                if got is None or not np.array_equal(got, last):
+                    v.append(("C16:trajectory-not-served-in-order:Dim=%s" % dn, "after call %d (%s) getData() is not the state served last" % (k, op)))
                     return v
             elif impl.get("data%d_empty" % k) != 1:
                 v.append(("C16:trajectory-data-before-first-call", "getData() holds a value before the first successful bufferData()"))
@@ -619,30 +727,33 @@ def oracle_sim(c, impl, model):
     LR = impl.get("sqrtR"); R = c.get("R")
     if LR is None or LR.shape != (m, m) or not _close(LR @ LR.T, R, 1e-9):
         v.append(("C16:sensor-noise-cov-not-R", "sqrt_R sqrt_R^T != R")); return v
-    if impl.get("meas_size") != m:
-        v.append(("C16:sensor-measurement-size", "measurement description has size %s for %d measured components" % (impl.get("meas_size"), m)))
-    z2 = list(impl.get("draws2").reshape(-1)) if impl.has("draws2") and impl.get("draws2").size else []
-    cur, taken, last = 0, 0, None
+    desc = (impl.get("meas_size"), impl.get("meas_lin"), impl.get("meas_circ"), impl.get("input_size"), impl.get("input_noise"))
+    if desc != (m, m, 0, d + m, m):
+        v.append(("C16:sensor-descriptions", "measurement (size, linear, circular) and input (size, noise) descriptions %s, documented %s for %d measured components of a %d-state linear model" % (desc, (m, m, 0, d + m, m), m, d)))
+    cur, last = 0, None
     for k, op in enumerate(c.get("ops")):
         ret = impl.get("ret%d" % k)
+        got = impl.get("meas%d" % k)
         if op == "f":
             want = 1 if cur < n else 0
             if ret != want:
                 v.append(("C16:sensor-freeze-forwarding", "call %d (freeze, %d served since reset, length %d) returned %s" % (k, cur, n, ret)))
                 return v
             if want:
-                last = H @ xs[cur] + LR @ np.array(z2[taken * m:(taken + 1) * m]); cur += 1; taken += 1
+                if got is None or got.shape != (m, 1) or not np.all(np.isfinite(got)):
+                    v.append(("C16:sensor-measurement-shape:m=%d" % m, "after call %d measure() has shape %s" % (k, None if got is None else got.shape))); return v
+                last = got; cur += 1
         elif op == "r":
             cur = 0
-        got = impl.get("meas%d" % k)
         if last is None:
             if got is not None and got.size:
                 v.append(("C16:sensor-measurement-before-freeze", "measure() holds a value before the first successful freeze"))
-        elif got is None or got.shape != (m, 1) or not _close(got.reshape(-1), last, 1e-8):
-            v.append(("C16:sensor-measurement-not-Hx-plus-noise:m=%d" % m, "after call %d (%s): measure() is not H x_k + sqrt_R z (k = %d)" % (k, op, max(cur - 1, 0))))
+        elif got is None or not np.array_equal(got, last):
+            v.append(("C16:sensor-measurement-not-kept", "after call %d (%s) measure() differs from the measurement of the last successful freeze" % (k, op)))
             return v
         if impl.get("meas%d_valid" % k) != 1:
             v.append(("C16:sensor-measure-invalid", "measure() reported invalid"))
+    # measurement = H x_k + sqrt_R * (mirrored draws) is compared with the model; its distribution in lin_stat cases
     return v
 
 
@@ -660,6 +771,11 @@ def oracle_grid(c, impl, model):
         if not np.array_equal(st, c.get("st0")) or not np.array_equal(w, c.get("w0")):
             v.append(("C16:grid-refusal-modifies", "a refused initialisation changed the particle set"))
         return v
+    if min(nx, ny) < 2:
+        # outside the property's domain: the code divides 0 by 0; only the correspondence check speaks about it
+        if w is None or w.shape != (np_, 1) or not _close(w, np.full((np_, 1), -math.log(np_)), 1e-14):
+            v.append(("C16:grid-weights", "weights are not -ln(%d)" % np_))
+        return v
     want = np.zeros((4, np_))
     for i in range(nx):
         for j in range(ny):
@@ -676,6 +792,10 @@ def oracle_grid(c, impl, model):
 def oracle(c, impl, model):
     if c.kind == "wna":
         return oracle_wna(c, impl, model)
+    if c.kind == "wna_stat":
+        return oracle_wna_stat(c, impl, model)
+    if c.kind == "lin_stat":
+        return oracle_lin_stat(c, impl, model)
     if c.kind in ("lti_state", "lti_meas"):
         return oracle_ctor(c, impl, model)
     if c.kind == "linmodel":
@@ -723,9 +843,12 @@ def histogram(cases):
             key = "%s %s" % (c.kind, expected_outcome(c))
         elif c.kind in ("sim", "sensor"):
             key = "%s len<=%d" % (c.kind, 10 * ((int(c.meta["len"]) + 9) // 10))
+        elif c.kind == "grid":
+            key = "grid ok=%s" % c.meta["ok"] + (" degenerate" if min(int(c.meta["nx"]), int(c.meta["ny"])) < 2 else "")
         else:
-            key = "grid ok=%s" % c.meta["ok"]
+            key = c.kind
         h[key] = h.get(key, 0) + 1
+    h.update(STATS)          # factor probes run / rejected for an ill-conditioned probe matrix (cond > 1e6)
     return h
 
 
